@@ -148,28 +148,27 @@ def G2.Zeroes (G : G2) (right : Bool) (a b : GQ) : Prop :=
 /-- the four entries agree (the signed-zero flag is not an entry) -/
 def G2.SameEntries (G H : G2) : Prop := G.g00 = H.g00 ∧ G.g01 = H.g01 ∧ G.g10 = H.g10 ∧ G.g11 = H.g11
 
-theorem ph_real_sq {a b : GQ} {c s : Rat} {ph : GQ} (h : CSP a b c s ph) (ha : a.im = 0) (hb : b.im = 0) :
+theorem ph_real_sq {a b : GQ} {c s : Rat} {ph : GQ} (h : CSP a b c s ph) (h0 : ph.im = 0) :
     ph.im = 0 ∧ ph.re * ph.re = 1 := by
-  have h0 := h.real ha hb
   have := h.phn
   rw [h0] at this
   exact ⟨h0, by linarith⟩
 
 theorem assemble_unitary {a b : GQ} {c s : Rat} {ph : GQ} (h : CSP a b c s ph) (right real : Bool)
-    (hreal : real = true → a.im = 0 ∧ b.im = 0) : (assemble right real c s ph).Unitary := by
+    (hreal : real = true → ph.im = 0) : (assemble right real c s ph).Unitary := by
   have hu := h.unit
   have hp := h.phn
   cases right <;> cases real <;> simp only [assemble, G2.Unitary, Bool.not_true, Bool.not_false, if_true, if_false,
     Bool.false_eq_true]
   · refine ⟨GQ.ext ?_ ?_, GQ.ext ?_ ?_, GQ.ext ?_ ?_⟩ <;> simp <;> first | ring1 | linear_combination hu + (s*s) * hp | linear_combination hu + (c*c) * hp | linear_combination (-(c*s)) * hp | linear_combination (c*s) * hp
-  · obtain ⟨hi, hr⟩ := ph_real_sq h (hreal rfl).1 (hreal rfl).2
+  · obtain ⟨hi, hr⟩ := ph_real_sq h (hreal rfl)
     refine ⟨GQ.ext ?_ ?_, GQ.ext ?_ ?_, GQ.ext ?_ ?_⟩ <;> simp [hi] <;> first | ring1 | linear_combination hu + (s*s) * hr | linear_combination hu + (c*c) * hr | linear_combination (-(c*s)) * hr | linear_combination (c*s) * hr
   · refine ⟨GQ.ext ?_ ?_, GQ.ext ?_ ?_, GQ.ext ?_ ?_⟩ <;> simp <;> first | ring1 | linear_combination hu + (s*s) * hp | linear_combination hu + (c*c) * hp | linear_combination (-(c*s)) * hp | linear_combination (c*s) * hp
-  · obtain ⟨hi, hr⟩ := ph_real_sq h (hreal rfl).1 (hreal rfl).2
+  · obtain ⟨hi, hr⟩ := ph_real_sq h (hreal rfl)
     refine ⟨GQ.ext ?_ ?_, GQ.ext ?_ ?_, GQ.ext ?_ ?_⟩ <;> simp [hi] <;> first | ring1 | linear_combination hu + (s*s) * hr | linear_combination hu + (c*c) * hr | linear_combination (-(c*s)) * hr | linear_combination (c*s) * hr
 
 theorem assemble_zeroes {a b : GQ} {c s : Rat} {ph : GQ} (h : CSP a b c s ph) (right real : Bool)
-    (hreal : real = true → a.im = 0 ∧ b.im = 0) : (assemble right real c s ph).Zeroes right a b := by
+    (hreal : real = true → ph.im = 0) : (assemble right real c s ph).Zeroes right a b := by
   have hu := h.unit
   have hp := h.phn
   have r1 := h.rel_re
@@ -179,12 +178,11 @@ theorem assemble_zeroes {a b : GQ} {c s : Rat} {ph : GQ} (h : CSP a b c s ph) (r
   · refine GQ.ext ?_ ?_ <;> simp <;> first | linear_combination r1 | linear_combination r2
   · refine GQ.ext ?_ ?_ <;> simp <;> first | linear_combination r1 | linear_combination r2
   · refine GQ.ext ?_ ?_ <;> simp <;> first | linear_combination r1 | linear_combination r2
-  · obtain ⟨hi, hr⟩ := ph_real_sq h (hreal rfl).1 (hreal rfl).2
-    have ha := (hreal rfl).1
-    have hb := (hreal rfl).2
-    rw [hi, hb] at r1
-    refine GQ.ext ?_ ?_ <;> simp [hi, ha, hb]
-    linear_combination (-ph.re) * r1 + (-(s * b.re)) * hr
+  · obtain ⟨hi, hr⟩ := ph_real_sq h (hreal rfl)
+    rw [hi] at r1 r2
+    refine GQ.ext ?_ ?_ <;> simp [hi]
+    · linear_combination (-ph.re) * r1 + (-(s * b.re)) * hr
+    · linear_combination (-ph.re) * r2 + (-(s * b.im)) * hr
 
 theorem params_inv {G : G2} {s' c' : Rat} {e : GQ} (h : params G = .ok (s', c', e)) :
     s' = G.g10.re ∧ c' * c' = 1 - s' * s' ∧ 0 ≤ c' ∧
@@ -244,7 +242,7 @@ theorem neg_ofRat (x : Rat) : -(GQ.ofRat x) = GQ.ofRat (-x) := by refine GQ.ext 
 /-- `(θ, φ)` — as `(sin θ, cos θ, e^{iφ})` — reproduce the matrix in all four forms and all three
 branches, including `sine = 0` in the complex `which='right'` form where it rests on `angle(-0.0) = π` -/
 theorem params_assemble {a b : GQ} {c s : Rat} {ph : GQ} (h : CSP a b c s ph) (right real : Bool)
-    (hreal : real = true → a.im = 0 ∧ b.im = 0) {s' c' : Rat} {e : GQ}
+    (hreal : real = true → ph.im = 0) {s' c' : Rat} {e : GQ}
     (hp : params (assemble right real c s ph) = .ok (s', c', e)) :
     (rotationOf s' c' e).SameEntries (assemble right real c s ph) := by
   have hu := h.unit
@@ -271,7 +269,7 @@ theorem params_assemble {a b : GQ} {c s : Rat} {ph : GQ} (h : CSP a b c s ph) (r
       subst he
       exact ⟨rfl, rfl, rfl, rfl⟩
   · -- left, real : [[c, -ph s], [ph s, c]]
-    obtain ⟨hi, hr⟩ := ph_real_sq h (hreal rfl).1 (hreal rfl).2
+    obtain ⟨hi, hr⟩ := ph_real_sq h (hreal rfl)
     have hs : s' = ph.re * s := by simpa [hi] using hs'
     have hc : c' = c := sq_eq_of_nonneg hc0 h.c0 (by rw [hs] at hc2; linear_combination hc2 - hu - (s * s) * hr)
     subst hc
@@ -309,7 +307,7 @@ theorem params_assemble {a b : GQ} {c s : Rat} {ph : GQ} (h : CSP a b c s ph) (r
       · refine GQ.ext ?_ ?_ <;> simp
       · refine GQ.ext ?_ ?_ <;> simp
   · -- right, real : [[s, ph c], [-ph c, s]]
-    obtain ⟨hi, hr⟩ := ph_real_sq h (hreal rfl).1 (hreal rfl).2
+    obtain ⟨hi, hr⟩ := ph_real_sq h (hreal rfl)
     have hs : s' = -(ph.re * c) := by simpa [hi] using hs'
     have hc : c' = s := sq_eq_of_nonneg hc0 h.s0 (by rw [hs] at hc2; linear_combination hc2 - hu - (c * c) * hr)
     subst hc
@@ -323,6 +321,37 @@ theorem params_assemble {a b : GQ} {c s : Rat} {ph : GQ} (h : CSP a b c s ph) (r
     subst he1 hs
     rw [real_mul_ofRat hi]
     simp [one_mul_gq, neg_ofRat]
+
+/-- unfolding `givens_matrix_elements` in the exact regime of the real / complex decision: the matrix is assembled from
+`(cosine, sine, phase)` itself (`numpy.real(phase) = phase` when the decision is "real") -/
+theorem givensElems_inv {tol : Rat} {a b : GQ} {right : Bool} {G : G2} (hreal : RealExact tol a b)
+    (h : givensElems tol a b right = .ok G) :
+    ∃ c s ph, cosSinPhase tol a b = .ok (c, s, ph) ∧ (realPhase tol ph = true → ph.im = 0) ∧
+      G = assemble right (realPhase tol ph) c s ph := by
+  unfold givensElems at h
+  cases hC : cosSinPhase tol a b with
+  | error e => simp [hC, bind, Except.bind] at h
+  | ok t =>
+    obtain ⟨c, s, ph⟩ := t
+    simp only [hC, bind, Except.bind] at h
+    injection h with h
+    have hr := hreal c s ph hC
+    refine ⟨c, s, ph, rfl, hr, ?_⟩
+    rw [← h]
+    by_cases hp : realPhase tol ph = true
+    · have : GQ.ofRat ph.re = ph := GQ.ext rfl (by simp [hr hp])
+      simp [hp, this]
+    · simp [hp]
+
+/-- the executable test decides the exact regime of the real / complex decision -/
+theorem realExactB_sound {tol : Rat} {a b : GQ} (h : realExactB tol a b = true) : RealExact tol a b := by
+  intro c s ph hC hp
+  unfold realExactB at h
+  rw [hC] at h
+  simp only [Bool.or_eq_true, Bool.not_eq_true', decide_eq_true_eq] at h
+  rcases h with h | h
+  · rw [hp] at h; exact absurd h (by simp)
+  · exact h
 
 end C11
 end Model
